@@ -14,6 +14,7 @@ import Mrpro.Model.KDataOps
 import Mrpro.Model.MoveData
 import Mrpro.Model.Dcf
 import Mrpro.Model.Dcf2d
+import Mrpro.Model.DcfLayout
 import Mrpro.Model.WaveletLayout
 import Mrpro.Model.Autograd
 open Lean M M.Proto
@@ -437,6 +438,12 @@ def handle (j : Json) : Except String Json := do
                                      ("unique", Json.arr ((uniquePts ptsR).map ratsJson).toArray)])
       | none => pure (Json.mkObj [("status", Json.str "none"), ("inverse", natsJson inv), ("counts", natsJson cnt),
                                    ("unique", Json.arr ((uniquePts ptsR).map ratsJson).toArray)])
+  | "dcf_layout" =>
+      -- decomposition of DcfData.from_traj_voronoi: v[i][d] = direction i varies along dimension d
+      let v ← j.getObjValAs? (Array (Array Bool)) "v"
+      let L : DcfLayout.Layout := v.toList.map (·.toList)
+      pure (Json.mkObj [("degree", Json.num (DcfLayout.degree L)), ("d_enc", Json.num (DcfLayout.dEnc L)), ("well_formed", Json.bool (DcfLayout.wellFormed L)),
+                        ("joint", natsJson (DcfLayout.joint L)), ("one_d", Json.arr ((DcfLayout.oneD L).map (fun p => natsJson [p.1, p.2])).toArray)])
   | "rpe_krad" =>
       let shifts ← getRats j "shifts"; let c ← getInt j "center"
       let k1 ← getNats j "k1"; let k2 ← getNats j "k2"
